@@ -276,6 +276,7 @@ pub fn run(ctx: &mut Ctx) {
         ctx.oracle_fail(format!("a transform primitive panicked inside the crate on a contract-valid call: {}", d), &case, None);
     }
     block_ties(ctx, &prims);
+    env_children(ctx, thorough);
     // end to end with mixed engines: reuse the C01 generator at a smaller scale
     let save = ctx.tier.clone();
     ctx.tier = if thorough { "quick".into() } else { "mini".into() };
@@ -440,4 +441,20 @@ fn block_ties(ctx: &mut Ctx, prims: &[(String, Box<dyn Prims>)]) {
         Err(e) => { let c = Case::new("block-tie"); ctx.model_fail(e, &c, None); }
     }
     ctx.bump("block_level_model_lines", q.len());
+}
+
+/// engines compared in child processes that may use only 1, 3, 5, … CPUs (anything derived from
+/// `available_parallelism()` while the tables are built is exercised away from this machine's CPU count)
+pub fn env_children(ctx: &mut Ctx, thorough: bool) {
+    for n in crate::props::envchild::counts(thorough) {
+        ctx.evaluations += 1;
+        ctx.count("env_child_cpus", &n.to_string());
+        let case = Case { name: format!("env-child {}", n), lines: vec![format!("rsharness env-child {}", n)], with_model: false };
+        match crate::props::c16::run_child(&["env-child".into(), n.to_string()], std::time::Duration::from_secs(300)) {
+            Ok(t) if t.starts_with("OK") => {}
+            Ok(t) if t.starts_with("SKIP") => ctx.notes.push(format!("env-child {}: {}", n, t)),
+            Ok(t) => ctx.oracle_fail(format!("child restricted to {} CPUs: {}", n, t), &case, None),
+            Err(e) => ctx.oracle_fail(format!("child restricted to {} CPUs: {}", n, e.chars().take(400).collect::<String>()), &case, None),
+        }
+    }
 }
